@@ -36,16 +36,18 @@ RZ == <<0,1>>
 RI(k) == <<k,1>>
 
 \* ----------------------------------------------------------------- Poly
-Prune(f)  == [m \in {x \in DOMAIN f : f[x][1] # 0} |-> f[m]]
+\* TLCEval forces the (otherwise lazily represented) function to be materialised: a lazy function that is
+\* applied twice per element and nests through a chain of sums is re-evaluated 2^depth times by TLC
+Prune(f)  == LET ff == TLCEval(f) IN TLCEval([m \in {x \in DOMAIN ff : ff[x][1] # 0} |-> ff[m]])
 PZero     == [m \in {} |-> RZ]
 PRat(q)   == IF q[1] = 0 THEN PZero ELSE [m \in {EmptyBag} |-> q]
 PConst(k) == PRat(RI(k))
 PAtom(a)  == [m \in {SetToBag({a})} |-> <<1,1>>]
 PC(p,m)   == IF m \in DOMAIN p THEN p[m] ELSE RZ
 PAdd(p,q) == Prune([m \in (DOMAIN p) \cup (DOMAIN q) |-> RAdd(PC(p,m),PC(q,m))])
-PNeg(p)   == [m \in DOMAIN p |-> RNeg(p[m])]
+PNeg(p)   == TLCEval([m \in DOMAIN p |-> RNeg(p[m])])
 PSub(p,q) == PAdd(p, PNeg(q))
-PScaleR(q,p) == IF q[1] = 0 THEN PZero ELSE [m \in DOMAIN p |-> RMul(q,p[m])]
+PScaleR(q,p) == IF q[1] = 0 THEN PZero ELSE TLCEval([m \in DOMAIN p |-> RMul(q,p[m])])
 PMulGen(p,q) == LET prods == {<<a,b>> : a \in DOMAIN p, b \in DOMAIN q}
                     ms == {pr[1] (+) pr[2] : pr \in prods}
                 IN Prune([m \in ms |-> FoldSet(LAMBDA pr,acc: IF pr[1] (+) pr[2] = m
@@ -58,24 +60,29 @@ PMul(p,q) == IF DOMAIN p = {} \/ DOMAIN q = {} THEN PZero
 PIsZero(p) == DOMAIN p = {}
 
 \* ---------------------------------------------------------------- Group
-GPrune(f)   == [b \in {x \in DOMAIN f : DOMAIN f[x] # {}} |-> f[b]]
+GPrune(f)   == LET ff == TLCEval(f) IN TLCEval([b \in {x \in DOMAIN ff : DOMAIN ff[x] # {}} |-> ff[b]])
 GId         == [b \in {} |-> PZero]
 GBase(b)    == [x \in {b} |-> PConst(1)]
 GC(g,b)     == IF b \in DOMAIN g THEN g[b] ELSE PZero
 GAdd(g,h)   == GPrune([b \in (DOMAIN g) \cup (DOMAIN h) |-> PAdd(GC(g,b),GC(h,b))])
 GScale(p,g) == GPrune([b \in DOMAIN g |-> PMul(p,g[b])])
-GNeg(g)     == [b \in DOMAIN g |-> PNeg(g[b])]
+GNeg(g)     == TLCEval([b \in DOMAIN g |-> PNeg(g[b])])
 GSub(g,h)   == GAdd(g, GNeg(h))
 GIsId(g)    == DOMAIN g = {}
 GMulInt(k,g) == GScale(PConst(k), g)
 
-RECURSIVE GSumSeq(_)
-GSumSeq(s) == IF s = <<>> THEN GId ELSE GAdd(Head(s), GSumSeq(Tail(s)))
+\* sums over sequences by index recursion on the materialised sequence
+GSumSeq(s) == LET ss == TLCEval(s)
+                  RECURSIVE S(_)
+                  S(i) == IF i = 0 THEN GId ELSE GAdd(S(i - 1), ss[i])
+              IN S(Len(ss))
 
 \* pairing e(x in S, y in K) as a formal bilinear map into T
 PairOne(x,y) == GPrune([bb \in (DOMAIN x) \X (DOMAIN y) |-> PMul(x[bb[1]], y[bb[2]])])
-RECURSIVE PairList(_)
-PairList(l) == IF l = <<>> THEN GId ELSE GAdd(PairOne(l[1][1], l[1][2]), PairList(Tail(l)))
+PairList(l) == LET ll == TLCEval(l)
+                   RECURSIVE S(_)
+                   S(i) == IF i = 0 THEN GId ELSE GAdd(S(i - 1), PairOne(ll[i][1], ll[i][2]))
+               IN S(Len(ll))
 GtOne(t)    == DOMAIN t = {}
 
 \* -------------------------------------------------------- basis symbols
